@@ -433,8 +433,45 @@ fn rt_main(shape: usize, path: usize, seed: u8) {
     }
 }
 
+// ------------------------------------------------------------------------------------
+// C05 on a 32-bit usize: lengths whose byte size does not fit the address space must be refused
+// ------------------------------------------------------------------------------------
+fn ovf_main(ctor: usize, len: usize) {
+    use std::mem::MaybeUninit;
+    use triomphe::UniqueArc;
+    let r = catch_unwind(AssertUnwindSafe(|| -> (usize, usize) {
+        match ctor {
+            0 => {
+                let a = Arc::<[MaybeUninit<u32>]>::new_uninit_slice(len);
+                (a.len(), 4)
+            }
+            1 => {
+                let a = Arc::<[MaybeUninit<u64>]>::new_uninit_slice(len);
+                (a.len(), 8)
+            }
+            2 => {
+                let a = UniqueArc::<[MaybeUninit<u16>]>::new_uninit_slice(len);
+                (a.len(), 2)
+            }
+            _ => {
+                let a = UniqueArc::<HeaderSlice<u64, [MaybeUninit<u32>]>>::from_header_and_uninit_slice(7u64, len);
+                (a.slice.len(), 4)
+            }
+        }
+    }));
+    match r {
+        Ok((n, sz)) => println!("RETURNED len={} elem={}", n, sz),
+        Err(_) => println!("REFUSED"),
+    }
+}
+
 fn main() {
     let args0: Vec<String> = std::env::args().collect();
+    if args0.get(1).map(|s| s.as_str()) == Some("ovf") {
+        let g = |i: usize| -> usize { args0.get(i).and_then(|s| s.parse().ok()).expect("ovf <ctor> <len>") };
+        ovf_main(g(2), g(3));
+        return;
+    }
     if args0.get(1).map(|s| s.as_str()) == Some("rt") {
         let g = |i: usize| -> usize { args0.get(i).and_then(|s| s.parse().ok()).expect("rt <shape> <path> <seed>") };
         let _ = (N_SHAPES, N_PATHS);
